@@ -146,6 +146,27 @@ func c05G1Cases(r *rand.Rand, nFlipEnc int) []bcase {
 			found++
 		}
 	}
+	// valid points whose x is just below p (the largest canonical values): must be accepted and re-encoded
+	// unchanged; and x just above a power of two / just below 2^380 likewise
+	for _, start := range []*big.Int{new(big.Int).Sub(ref.P, big.NewInt(1)), new(big.Int).Sub(ref.P, new(big.Int).Lsh(big.NewInt(1), 64)), new(big.Int).Sub(ref.P, new(big.Int).Lsh(big.NewInt(1), 200)), new(big.Int).Sub(ref.P, new(big.Int).Lsh(big.NewInt(1), 359)), new(big.Int).Lsh(big.NewInt(0x1a0111), 357), new(big.Int).Lsh(big.NewInt(0x1a01), 365), new(big.Int).Lsh(big.NewInt(1), 380)} {
+		found := 0
+		for d := int64(0); d < 400 && found < 2; d++ {
+			x := new(big.Int).Sub(start, big.NewInt(d))
+			if x.Sign() <= 0 || x.Cmp(ref.P) >= 0 {
+				continue
+			}
+			y := ref.Fp.Sqrt(ref.Fp.Add(ref.Fp.Mul(ref.Fp.Mul(x, x), x), big.NewInt(4)))
+			if y == nil {
+				continue
+			}
+			pt := ref.G1{X: x, Y: y}
+			if !ref.E1.IsOnCurve(pt) {
+				continue
+			}
+			cs = append(cs, bcase{ref.EncodeG1(pt), "x-near-p"}, bcase{ref.EncodeG1(ref.E1.Neg(pt)), "x-near-p"})
+			found++
+		}
+	}
 	// on-curve points whose x has its top bit at a 64-bit limb boundary (x = 2^(64j+63) + d), canonical and
 	// with x + p: the two encodings agree with p on the upper limbs and differ from it by >= 2^63 in one limb
 	for j := uint(0); j < 5; j++ {
@@ -340,6 +361,21 @@ func ecRawCases(r *rand.Rand, c *ref.ECCurve) []bcase {
 		x.FillBytes(b[:32])
 		copy(b[32:], valid[32:])
 		cs = append(cs, bcase{b, "boundary"})
+	}
+	// valid points whose x is just below p, or just below/above 2^255, 2^192, 2^128 (raw and, via the
+	// compressed cases, compressed): the largest canonical coordinates must be accepted
+	for _, start := range []*big.Int{new(big.Int).Sub(p, big.NewInt(1)), new(big.Int).Sub(p, new(big.Int).Lsh(big.NewInt(1), 33)), new(big.Int).Lsh(big.NewInt(1), 255), new(big.Int).Lsh(big.NewInt(1), 192), new(big.Int).Lsh(big.NewInt(1), 128)} {
+		got := 0
+		for d := int64(0); d < 400 && got < 2; d++ {
+			x := new(big.Int).Sub(start, big.NewInt(d))
+			comp := append([]byte{2}, x.FillBytes(make([]byte, 32))...)
+			q, ok := c.DecodeCompressed(comp)
+			if !ok {
+				continue
+			}
+			cs = append(cs, bcase{c.EncodeRaw(q), "x-near-boundary"})
+			got++
+		}
 	}
 	// small x with x+p < 2^256: valid point, then non-reduced x or y
 	found := 0
